@@ -203,8 +203,10 @@ def build_forecaster(spec):
     if k == "multiplex":
         from sktime.forecasting.compose import MultiplexForecaster
 
-        members = [("m%d" % i, build_forecaster(m)) for i, m in enumerate(spec["members"])]
-        return MultiplexForecaster(members, selected_forecaster="m%d" % (spec["selected"] % len(members)))
+        # names of which each is contained in the next ("f", "f_x", "f_x_x"): a member is selected
+        # by its exact name
+        members = [("f" + "_x" * i, build_forecaster(m)) for i, m in enumerate(spec["members"])]
+        return MultiplexForecaster(members, selected_forecaster="f" + "_x" * (spec["selected"] % len(members)))
     if k == "gridsearch":
         from sktime.forecasting.model_selection import ForecastingGridSearchCV, SlidingWindowSplitter
 
